@@ -565,7 +565,7 @@ fn schedules(rep: &mut Report, thorough: bool) {
 pub fn run(rep: &mut Report) {
     let thorough = rep.is_thorough();
     inputs(rep, thorough);
-    histories(rep, if thorough { 4 } else { 3 });
+    histories(rep, if thorough { 5 } else { 4 });
     schedules(rep, thorough);
     let p = take_panics();
     if !p.is_empty() {
@@ -575,7 +575,7 @@ pub fn run(rep: &mut Report) {
     rep.sample(json!({"layout":"two-regions-sharing-a-log-byte","write":{"gpa":"0x4fff","len":2},"expect_log_byte0":"0b00110000"}));
     rep.sample(json!({"history":["TableA","LogBase","AddB","WriteB"],"expect":"bit of page 5 set (logging stays in force for memory added later)"}));
     rep.sample(json!({"schedule":"2 writers x 1 mark","expect":"byte 0 == OR of both bits in every interleaving of the atomic accesses"}));
-    rep.rule = "inputs: 8 region layouts (1-4 regions sharing log bytes, adjacent, crossing a log-byte boundary, three unaligned ones) x log window at file offset 4096 / 8192 between guard pages x log sizes {needed-1, needed, needed+1, 4096} x writes (offset, len) over {0,1,4095,4096,4097,8191,8192,8193,end-4097,end-4096,end-2,end-1} x {0,1,2,4095,4096,4097,8191,8192,8193,size,to-end} through GuestMemory::write_slice, one write spanning two regions and one used-ring update; histories: all sequences of length <= 3 (4 at thorough) over {SET_LOG_BASE, SET_LOG_BASE with a one-byte log (enough for region A, too small for region B: must be rejected and leave the log in force untouched), table A, table A+B, ADD B, REM B, write A, write B} ending in a write after a SET_LOG_BASE; schedules: N writers marking distinct bits of the same log byte, every interleaving of the atomic accesses (N=2,3; up to 6 at thorough). Oracle: log window == independent page-set bitmap (LSB first), guard bytes untouched, rejection iff unaligned region or log too small, final byte == OR of all writers' bits. Non-trivial = writes / set-ups / schedules whose log content was compared".into();
+    rep.rule = "inputs: 8 region layouts (1-4 regions sharing log bytes, adjacent, crossing a log-byte boundary, three unaligned ones) x log window at file offset 4096 / 8192 between guard pages x log sizes {needed-1, needed, needed+1, 4096} x writes (offset, len) over {0,1,4095,4096,4097,8191,8192,8193,end-4097,end-4096,end-2,end-1} x {0,1,2,4095,4096,4097,8191,8192,8193,size,to-end} through GuestMemory::write_slice, one write spanning two regions and one used-ring update; histories: all sequences of length <= 4 (5 at thorough) over {SET_LOG_BASE, SET_LOG_BASE with a one-byte log (enough for region A, too small for region B: must be rejected and leave the log in force untouched), table A, table A+B, ADD B, REM B, write A, write B} ending in a write after a SET_LOG_BASE; schedules: N writers marking distinct bits of the same log byte, every interleaving of the atomic accesses (N=2,3; up to 6 at thorough). Oracle: log window == independent page-set bitmap (LSB first), guard bytes untouched, rejection iff unaligned region or log too small, final byte == OR of all writers' bits. Non-trivial = writes / set-ups / schedules whose log content was compared".into();
     rep.assumptions.push("the atomic accesses of the bitmap go through the verif-hooks AtomicU8 wrapper, which makes each of them a scheduling point; sequentially consistent scheduler (Relaxed ordering is irrelevant for a single RMW)".into());
 }
 
